@@ -559,7 +559,7 @@ func TestC30(t *testing.T) {
 	defer r.Finish()
 	r.Rule("histories of 8–30 random organization/bucket/user/membership operations (create, rename, delete, describe; names from pools of 6–10 with collisions, case and whitespace variants, reserved and empty names; targets incl. deleted and never-existing ids; rename/delete attempts on system buckets) against the real tenant.Service on the in-memory KV store; after every operation a sweep through the service API and the raw name indexes: names unique, every name lookup returns the record, every index entry points to a record of that name, no bucket or membership of a deleted organization/bucket/user, system buckets of living organizations present under their names, by-user membership index = scan; non-trivial = ≥5 operations succeeded incl. a rename or delete; distinct = the history. concurrent part: G goroutines create / rename to the same name at once, then the same sweep, under the race detector")
 	ev := func(n string) { r.Event(n, 1) }
-	n := r.N(300, 12000)
+	n := r.N(1200, 12000)
 	for h := 0; h < n; h++ {
 		rg := r.Rand(h)
 		w := c30NewWorld(t)
